@@ -35,8 +35,19 @@ Fixpoint drop_until (tg : string) (parts : list xpart) : option (xpart * list xp
                else if x_opt p then drop_until tg ps else None
   end.
 
+(* the three simple types whose lexical check is delegated: the full check by the pattern oracle, or none at all
+   ([leaf_any]: the *shape* of a document - names, nesting, order, cardinality, enum literals) *)
+Definition leaf_full (pm : string -> string -> bool) (t : xty) (s : string) : bool :=
+  match t with
+  | XStr f => facets_ok pm f s
+  | XBool => pm "xs:boolean" s
+  | XB64 => pm "xs:base64Binary" s
+  | _ => true
+  end.
+Definition leaf_any (_ : xty) (_ : string) : bool := true.
+
 Section XmlValid.
-Variable pm : string -> string -> bool.
+Variable leaf : xty -> string -> bool.
 Variable XS : xschema.
 
 Definition text_of (x : xml) : string := match xtext x with Some s => s | None => "" end.
@@ -67,9 +78,7 @@ Fixpoint xvalid (t : xty) (x : xml) {struct x} : bool :=
       | None => false
       end in
     match t with
-    | XStr f => no_kids x && facets_ok pm f (text_of x)
-    | XBool => no_kids x && pm "xs:boolean" (text_of x)
-    | XB64 => no_kids x && pm "xs:base64Binary" (text_of x)
+    | XStr _ | XBool | XB64 => no_kids x && leaf t (text_of x)
     | XEnum lits => no_kids x && smem (text_of x) lits
     | XCls cls => vcls cls
     | XList itag it =>
